@@ -9,6 +9,7 @@ the same harness runs on plain Python values taken from a solver model, on the u
 package, and ``require`` is an ordinary assertion.
 """
 import builtins
+import os
 import struct as _struct
 import sys
 import time
@@ -78,6 +79,11 @@ def bitlen(c):
     return max(1, c.bit_length())
 
 
+_DUMP_DIR = os.environ.get("VERIF_DUMP_SMT") or None
+_DUMP_MAX = int(os.environ.get("VERIF_DUMP_MAX", "400"))
+_DUMP_N = 0
+
+
 class Ctx:
     def __init__(self, prefix=(), solver_timeout_ms=30000, step_budget=20000):
         self.solver = z3.Solver()
@@ -107,7 +113,33 @@ class Ctx:
         r = str(self.solver.check(*extra))
         self.tq += time.time() - t
         self.nq += 1
+        if _DUMP_DIR and r in ("unsat", "sat"):
+            self._dump(extra, r)
         return r
+
+    def _dump(self, extra, verdict):
+        """VERIF_DUMP_SMT=<dir>: every decided query (path condition + the extra literal) is written as SMT-LIB2 with z3's verdict
+        in its first line, so that selftest/crosssolver.py can put the same query to cvc5 (at most VERIF_DUMP_MAX files per process,
+        one per distinct text)."""
+        global _DUMP_N
+        if _DUMP_N >= _DUMP_MAX:
+            return
+        try:
+            s2 = z3.Solver()
+            s2.add(*self.solver.assertions())
+            s2.add(*extra)
+            txt = s2.to_smt2()
+            import hashlib
+            h = hashlib.sha1(txt.encode()).hexdigest()[:16]
+            path = os.path.join(_DUMP_DIR, "%s_%s.smt2" % (verdict, h))
+            if not os.path.exists(path):
+                with open(path + ".tmp%d" % os.getpid(), "w") as f:
+                    f.write("; z3=%s\n" % verdict)
+                    f.write(txt)
+                os.replace(path + ".tmp%d" % os.getpid(), path)
+                _DUMP_N += 1
+        except Exception:
+            pass
 
     def add(self, term):
         self.solver.add(term)
